@@ -42,8 +42,13 @@ def render(hist):
             elif p == "afterand":
                 lines.append("vio X%d && %s" % (i, use))
             else:
-                lines.append("vpa NF%d %s" % (i, n))
+                # a non-first word - also right after a quoted operator character, which is an argument, not a new command
+                dec = NF_DECOYS[i % len(NF_DECOYS)]
+                lines.append("vpa NF%d %s%s" % (i, dec[0], n))
     return "\n".join(lines) + "\n"
+
+
+NF_DECOYS = [("", []), ("'|' ", ["|"]), ('"|" ', ["|"]), ("';' ", [";"]), ('"&&" ', ["&&"]), ("", [])]
 
 
 def expected_use(name, v, key):
@@ -107,7 +112,7 @@ def judge(rep, hist, text, res, second):
                 r = [x for x in logs if x.get("h") in ("pa", "mk") and "NF%d" % i in (x.get("argv") or [])]
                 # (vpa itself may be an alias at this point - of another vpa call or of the marker helper vmk: only the words
                 # from the marker on are compared, whichever helper received them)
-                if len(r) != 1 or r[0]["argv"][r[0]["argv"].index("NF%d" % i):] != ["NF%d" % i, o["n"]]:
+                if len(r) != 1 or r[0]["argv"][r[0]["argv"].index("NF%d" % i):] != ["NF%d" % i] + NF_DECOYS[i % len(NF_DECOYS)][1] + [o["n"]]:
                     return bad("nonfirst-replaced", "a non-first word was touched: argv %s" % [x.get("argv") for x in r])
                 continue
             ok, want, got = check_use(logs, o["n"], o["v"], "k%d" % i)
